@@ -10,9 +10,9 @@ SORTED_STRICT = "forall(lambda i, j: implies(0 <= i and i < j and j < len(array)
 # clipped to the last index
 BISECTION_POST = [
     "0 <= result and result < len(array)",
-    "forall(lambda k: implies(0 <= k and k < result, array[k] < val))",
-    "array[result] >= val or result == len(array) - 1",
-]
+    "forall(lambda k: implies(0 <= k and k < result, array[k] < old(val)))",
+    "array[result] >= old(val) or result == len(array) - 1",
+]     # old(val): the query *as given* -- the functions rebind `val` (asarray), and a conversion that changes its value must not go unnoticed
 
 search_bisection = Contract(
     F, "search_bisection",
@@ -38,6 +38,9 @@ search_bisection_vec = Contract(
                              "not_conv == (jupper - jlower > 1)"],
                "variant": "jupper - jlower", "variant_while": "not_conv"}},
     serves=["C17", "C06"])
+
+# dtype provenance (A1 treats values as reals; *which* array's type a value is converted to is still tracked): the query keeps its own type
+search_bisection_vec.dtypes = {"array": "array", "val": "query"}
 
 HERMITE_SELF = ("obj", "CubicHermiteInterp", {"t0": "Real", "t1": "Real", "p0": "Real", "p1": "Real", "m0": "Real", "m1": "Real"})
 
